@@ -148,6 +148,9 @@ inductive Op
   | loginKey (u : List UInt8) (k : Nat)     -- key in authorized_keys: session without grants
   | exec (sess : Nat) (now : Nat) (cmd : List UInt8) (shell : Bool)
   | tube (sess : Nat) (ttype : Nat) (reliable : Bool)
+  /-- the session opens an authorization-grant tube and communicates an intent for grant `g`
+  (`handleAgc` → `StartTargetInstance` with `checkIntent` and `AddAuthGrant`) -/
+  | issue (sess : Nat) (now : Nat) (g : Grant) (leafOk : Bool)
 deriving DecidableEq, Repr
 
 /-- something a session got served -/
@@ -166,9 +169,10 @@ structure World where
   server : Server
   sessions : List Session
   served : List Served
+  issued : List Grant         -- every grant ever stored through `AddAuthGrant`, in order
 deriving DecidableEq, Repr
 
-def World.empty : World := ⟨Server.empty, [], []⟩
+def World.empty : World := ⟨Server.empty, [], [], []⟩
 
 /-- run `exec` on session number `i` -/
 def execAt (now : Nat) (cmd : List UInt8) (shell : Bool) :
@@ -178,7 +182,7 @@ def execAt (now : Nat) (cmd : List UInt8) (shell : Bool) :
   | s :: ss, i + 1 => (s :: (execAt now cmd shell ss i).1, (execAt now cmd shell ss i).2)
 
 def stepW (w : World) : Op → World
-  | .grant g => { w with server := addGrant w.server g }
+  | .grant g => { w with server := addGrant w.server g, issued := w.issued ++ [g] }
   | .login u k =>
     match (login w.server u k).2 with
     | some s => { w with server := (login w.server u k).1, sessions := w.sessions ++ [s] }
@@ -197,12 +201,15 @@ def stepW (w : World) : Op → World
       if h = .close ∨ h = .acmeNoop ∨ h = .codex then w   -- exec goes through `Op.exec`
       else { w with served := w.served ++ [⟨s.user, s.key, s.usingGrant, h, 0, [], false, none⟩] }
     | none => w
+  | .issue i now g leafOk =>
+    match w.sessions[i]? with
+    | some s =>
+      if checkIntent s now ⟨g.gtype, g.exp, g.user, leafOk⟩ then
+        { w with server := addGrant w.server g, issued := w.issued ++ [g],
+                 served := w.served ++ [⟨s.user, s.key, s.usingGrant, .agc, now, [], false, none⟩] }
+      else w
+    | none => w
 
 def runW (w : World) (ops : List Op) : World := ops.foldl stepW w
-
-def issued : List Op → List Grant
-  | [] => []
-  | .grant g :: ops => g :: issued ops
-  | _ :: ops => issued ops
 
 end Grants
